@@ -517,9 +517,9 @@ func (r *Run) ledger(evs []verif.Event, drained bool) {
 	// from then on stays in the topic until somebody asks for an unpause -- no consumer can receive it in between, whatever
 	// kind of publish it was and wherever the topic had to put it
 	type ival struct{ open bool }
-	cur := map[string]*ival{}      // topic -> the interval "pause answered 200, no unpause requested yet"
-	unpausing := map[string]int{}  // topic -> unpause requests under way
-	under := map[string]*ival{}    // key -> interval its publish began in
+	cur := map[string]*ival{}     // topic -> the interval "pause answered 200, no unpause requested yet"
+	unpausing := map[string]int{} // topic -> unpause requests under way
+	under := map[string]*ival{}   // key -> interval its publish began in
 	topicOf := func(path, pre string) string {
 		if !strings.HasPrefix(path, pre) {
 			return ""
